@@ -12,7 +12,7 @@ from vlib.runner import Query, Report
 from vlib import bmc_remote as B
 
 PID = 'C16'
-REMOTE = '/repo/supp/remote.py'
+REMOTE = os.path.join(os.environ.get('VERIF_REPO', '/repo'), 'supp', 'remote.py')
 BMC_TIMEOUT_MS = 40000
 SERVER_HARNESS = os.path.join(runner.VERIF, 'harness', 'h_c16_server.py')
 
